@@ -44,9 +44,10 @@ class ScenarioProperty:
         from .driver import machine_drive
         from .machine import make_tree_machine
 
-        n = max(2, int({"quick": 240, "thorough": 6000}[tier] * scale / nshards))
-        steps = {"quick": 12, "thorough": 30}[tier]
         kw = dict(self.machine)
+        budget = kw.pop("budget", (240, 6000))
+        n = max(2, int({"quick": budget[0], "thorough": budget[1]}[tier] * scale / nshards))
+        steps = {"quick": 12, "thorough": 30}[tier]
         kw.setdefault("crash_is_violation", self.crash_is_violation)
         kw.setdefault("run_kwargs", {k: v for k, v in self.run_kwargs.items() if k in ("observe_chain", "proxy_engines")})
         return machine_drive(
